@@ -57,7 +57,7 @@ def buckets(t):
         out = set()
         for a in t.kids: out |= buckets(a)
         return out | ({"none"} if k == "optional" else set())
-    if k == "any": return {"*"}
+    if k == "any" or "abstract-collection" in getattr(t, "tags", ()): return {"*"}     # Collection / Sequence also match str, tuple, set, dict values
     if k in ("literal", "enum"): return {"lit:" + t.py} if k == "enum" else {"*lit"}
     if k == "dataclass": return {"cls:" + t.py}
     if k == "tuple": return {"tuple:%d" % len(t.kids)}       # fixed-length tuples are told apart by their length
